@@ -782,7 +782,7 @@ func main() {
 	if *replay == "" {
 		n := 2500
 		if *tier == "thorough" {
-			n = 20000
+			n = 60000
 		}
 		kc, kj := hopCases(r, n/4)
 		emit("kcases", "kcase", "kcase_model_ok", "kcase_prop_ok", kc, kj)
